@@ -705,3 +705,241 @@ Proof.
   rewrite !(merged_tables fst uds _ (n_per_pos _ _)), !(merged_tables snd uds _ (n_per_pos _ _)).
   reflexivity.
 Qed.
+
+(* ------------------------------------------------------------------ *)
+(* the p-value-mask route                                              *)
+Lemma mask_entries_in T : forall pv ds k g w,
+  In (g, w) (mask_entries k T pv ds) <->
+  (k <= g)%nat /\ exists v d, nth_error pv (g - k) = Some v /\ nth_error ds (g - k) = Some d /\
+                               v < T /\ g_invalid d = false /\ w = g_wgt d.
+Proof.
+  induction pv as [|v0 pv IH]; intros ds k g w.
+  - cbn. split; [intros [] | intros (_ & v & d & H & _)]. destruct (g - k)%nat; discriminate H.
+  - destruct ds as [|d0 ds].
+    + cbn. split; [intros [] | intros (_ & v & d & _ & H & _)]. destruct (g - k)%nat; discriminate H.
+    + cbn [mask_entries].
+      assert (Hstep : forall g, (S k <= g)%nat ->
+                nth_error (v0 :: pv) (g - k) = nth_error pv (g - S k) /\
+                nth_error (d0 :: ds) (g - k) = nth_error ds (g - S k)).
+      { intros g0 H0. replace (g0 - k)%nat with (S (g0 - S k)) by lia. split; reflexivity. }
+      assert (Htail : In (g, w) (mask_entries (S k) T pv ds) <->
+                      (S k <= g)%nat /\ exists v d, nth_error (v0 :: pv) (g - k) = Some v /\
+                         nth_error (d0 :: ds) (g - k) = Some d /\ v < T /\ g_invalid d = false /\ w = g_wgt d).
+      { rewrite IH. split; intros (Hk & v & d & H1 & H2 & R); (split; [exact Hk|]); exists v, d;
+          destruct (Hstep g Hk) as [S1 S2]; [rewrite S1, S2 | rewrite <- S1, <- S2]; auto. }
+      destruct ((v0 <? T) && negb (g_invalid d0)) eqn:E.
+      * apply andb_true_iff in E. destruct E as [E1 E2]. apply Z.ltb_lt in E1. apply negb_true_iff in E2.
+        split.
+        -- intros [Heq|Hin].
+           ++ inversion Heq; subst g w. split; [lia|]. rewrite Nat.sub_diag. exists v0, d0. cbn. auto.
+           ++ apply Htail in Hin. destruct Hin as [Hk R]. split; [lia | exact R].
+        -- intros (Hk & v & d & H1 & H2 & H3 & H4 & H5).
+           destruct (Nat.eq_dec k g) as [->|Hne].
+           ++ rewrite Nat.sub_diag in H1, H2. cbn in H1, H2. inversion H1; inversion H2; subst. left. reflexivity.
+           ++ right. apply Htail. split; [lia|]. exists v, d. auto.
+      * split.
+        -- intros Hin. apply Htail in Hin. destruct Hin as [Hk R]. split; [lia | exact R].
+        -- intros (Hk & v & d & H1 & H2 & H3 & H4 & H5).
+           destruct (Nat.eq_dec k g) as [->|Hne].
+           ++ rewrite Nat.sub_diag in H1, H2. cbn in H1, H2. inversion H1; inversion H2; subst.
+              apply Z.ltb_lt in H3. rewrite H3, H4 in E. discriminate E.
+           ++ apply Htail. split; [lia|]. exists v, d. auto.
+Qed.
+
+Lemma strict_wgt th bad g : th_ordered th -> strictly_passes th g -> g_wgt (gd_of th bad g) = 0.
+Proof.
+  intros (O1 & O2 & O3) Hp. destruct g as [[q1 qd] f]. destruct Hp as (P1 & P2 & P3).
+  assert (Einv : is_invalid th (q1, qd, f) = false) by (apply is_invalid_false; unfold above_floors; lia).
+  unfold gd_of. rewrite Einv. cbn [g_wgt]. unfold raw_dists, d_q1, d_qdiff, d_fold. cbn [fst snd].
+  rewrite (term_zero q1 _ P1), (term_zero qd _ P2), (term_zero f _ P3). reflexivity.
+Qed.
+
+(* the mask file: a gene has an entry for a pair iff its corrected p-value is below p_th and it
+   is on or above every floor; the entry of a strictly passing gene is 0 ("strictly valid") *)
+Lemma p_mask_row_spec : forall st x es,
+  p_mask_row st x = POk es ->
+  forall g, (exists w, In (g, w) es) <->
+    exists a sc, nth_error (approx_correct_ttest (pi_SP x) (pi_T x) (pi_p x)) g = Some a /\ a < pi_T x /\
+                 nth_error (pi_scores x) g = Some sc /\ above_floors (st_th st) sc.
+Proof.
+  intros st x es H g. unfold p_mask_row in H. cbv zeta in H.
+  destruct (penetrance_parameter_distance (st_S st) (st_th st) (pi_scores x)) as [ds|c] eqn:Ep; [|discriminate H].
+  cbn [pbind] in H. inversion H; subst es. apply ppd_inv in Ep. destruct Ep as (HO & bad & _ & Eds).
+  split.
+  - intros (w & Hin). apply mask_entries_in in Hin. rewrite Nat.sub_0_r in Hin.
+    destruct Hin as (_ & v & d & H1 & H2 & H3 & H4 & _).
+    rewrite Eds in H2. apply map_nth_error_inv in H2. destruct H2 as (sc & Hsc & Ed).
+    exists v, sc. split; [exact H1|]. split; [exact H3|]. split; [exact Hsc|].
+    apply is_invalid_false. subst d. exact H4.
+  - intros (a & sc & H1 & H2 & H3 & H4). exists (g_wgt (gd_of (st_th st) bad sc)).
+    apply mask_entries_in. split; [lia|]. rewrite Nat.sub_0_r. exists a, (gd_of (st_th st) bad sc).
+    split; [exact H1|]. split; [rewrite Eds; apply map_nth_error; exact H3|]. split; [exact H2|].
+    split; [|reflexivity]. unfold gd_of. cbn [g_invalid]. apply is_invalid_false. exact H4.
+Qed.
+
+Lemma p_mask_row_strict : forall st x es g w sc,
+  p_mask_row st x = POk es -> In (g, w) es ->
+  nth_error (pi_scores x) g = Some sc -> strictly_passes (st_th st) sc -> w = 0.
+Proof.
+  intros st x es g w sc H Hin Hsc Hp. unfold p_mask_row in H. cbv zeta in H.
+  destruct (penetrance_parameter_distance (st_S st) (st_th st) (pi_scores x)) as [ds|c] eqn:Ep; [|discriminate H].
+  cbn [pbind] in H. inversion H; subst es. apply ppd_inv in Ep. destruct Ep as (HO & bad & _ & Eds).
+  apply mask_entries_in in Hin. rewrite Nat.sub_0_r in Hin.
+  destruct Hin as (_ & v & d & _ & H2 & _ & _ & Hw).
+  rewrite Eds, (map_nth_error _ _ _ Hsc) in H2. inversion H2; subst d. subst w.
+  apply strict_wgt; assumption.
+Qed.
+
+Lemma EPS6_lt : EPS6_NUM < EPS6_DEN. Proof. reflexivity. Qed.
+Lemma EPS6_NUM_pos : 0 < EPS6_NUM. Proof. reflexivity. Qed.
+
+Lemma nth_error_map_seq {A} (f : nat -> A) n g : (g < n)%nat -> nth_error (map f (seq 0 n)) g = Some (f g).
+Proof.
+  intros H. rewrite nth_error_map.
+  assert (E : nth_error (seq 0 n) g = Some g).
+  { rewrite (nth_error_nth' (seq 0 n) 0%nat) by (rewrite seq_length; exact H). rewrite seq_nth by exact H. reflexivity. }
+  rewrite E. reflexivity.
+Qed.
+
+Definition entry_of (entries : list (nat * Z)) (g : nat) : option Z := nat_assoc g (rev entries).
+
+Section ValidityMask.
+  Local Opaque Z.mul.
+  Variables (SD : Z) (n_valid n_genes : nat) (entries : list (nat * Z)) (mask : option (list bool)).
+  Hypothesis HSD : 0 < SD.
+  Hypothesis Hmask : match mask with Some m => length m = n_genes | None => True end.
+
+  Let p_mask := map (fun g => match entry_of entries g with Some _ => true | None => false end) (seq 0 n_genes).
+  Let dist0 := map (fun g => match entry_of entries g with Some v => Z.max v 0 | None => 0 end) (seq 0 n_genes).
+  Let prior_ok := match mask with None => repeat true n_genes | Some m => m end.
+
+  Lemma vm_prior_len : length prior_ok = n_genes.
+  Proof. unfold prior_ok. destruct mask; [exact Hmask | apply repeat_length]. Qed.
+
+  Lemma vm_prior_in g : nth_error prior_ok g = Some true -> in_list mask g.
+  Proof. unfold prior_ok, in_list. destruct mask; [intros H; exact H | intros _; exact Logic.I]. Qed.
+
+  Lemma vm_in_prior g : (g < n_genes)%nat -> in_list mask g -> nth_error prior_ok g = Some true.
+  Proof.
+    unfold prior_ok, in_list. destruct mask; [intros _ H; exact H | intros H _; apply nth_error_repeat_true; exact H].
+  Qed.
+
+  Lemma vm_dist0_nonneg x : In x dist0 -> 0 <= x.
+  Proof.
+    unfold dist0. intros H. apply in_map_iff in H. destruct H as (g & <- & _).
+    destruct (entry_of entries g); lia.
+  Qed.
+
+  Definition vm_dist (good : Z) : list Z :=
+    map (fun x : bool * bool * Z => let '(pm, ok, d) := x in if negb pm then 3 * (good + SD) else if negb ok then 3 * (good + SD) else d)
+        (combine (combine p_mask prior_ok) dist0).
+
+  Lemma vm_dist_nth good g : (g < n_genes)%nat ->
+    exists ok, nth_error prior_ok g = Some ok /\
+      nth_error (vm_dist good) g =
+      Some (match entry_of entries g with
+            | Some v => if ok then Z.max v 0 else 3 * (good + SD)
+            | None => 3 * (good + SD)
+            end).
+  Proof.
+    intros Hg. destruct (nth_error prior_ok g) as [ok|] eqn:Eo.
+    2:{ apply nth_error_None in Eo. rewrite vm_prior_len in Eo. lia. }
+    exists ok. split; [reflexivity|]. unfold vm_dist.
+    rewrite nth_error_map, !nth_error_combine. unfold p_mask, dist0.
+    rewrite !(nth_error_map_seq _ n_genes g Hg), Eo. cbn.
+    destruct (entry_of entries g); cbn; [destruct ok; reflexivity | reflexivity].
+  Qed.
+
+  Lemma vm_unfold :
+    get_validity_mask SD n_valid n_genes entries mask =
+    match dist0 with
+    | [] => PErr E_EMPTY
+    | d0 :: _ =>
+        let good := zmax_list d0 dist0 in
+        let bad := 2 * (good + SD) in
+        let dist := vm_dist good in
+        if negb (Nat.eqb (length dist) n_genes) then PErr E_SHAPE
+        else
+          let invalid := map (fun d => bad <=? d) dist in
+          let abs_valid := map (fun d => d * EPS6_DEN <? EPS6_NUM * SD) dist in
+          let v1 := andb_list p_mask abs_valid in
+          if (count_true v1 <? n_valid)%nat then
+            match kth (n_valid - 1) dist with
+            | None => PErr E_INDEX
+            | Some cutoff =>
+                let pm := map (fun x : Z * bool * bool => let '(d, inv, av) := x in if av then true else if inv then false else d <=? cutoff)
+                              (combine (combine dist invalid) abs_valid) in
+                POk (andb_list p_mask pm)
+            end
+          else POk v1
+    end.
+  Proof. reflexivity. Qed.
+
+  (* soundness of _get_validity_mask: a gene kept has an entry in the mask file (so its
+     corrected p-value is below p_th and it is above the floors) and is in the gene list *)
+  Lemma validity_mask_sound m g :
+    get_validity_mask SD n_valid n_genes entries mask = POk m -> nth_error m g = Some true ->
+    (exists v, entry_of entries g = Some v) /\ in_list mask g.
+  Proof.
+    rewrite vm_unfold. intros H Hg.
+    destruct dist0 as [|d0 rest] eqn:Ed0; [discriminate H|]. cbv zeta in H.
+    set (good := zmax_list d0 (d0 :: rest)) in *.
+    assert (Hgood : 0 <= good).
+    { pose proof (zmax_list_ge d0 (d0 :: rest)). assert (0 <= d0) by (apply vm_dist0_nonneg; rewrite Ed0; left; reflexivity).
+      unfold good. lia. }
+    destruct (negb (Nat.eqb (length (vm_dist good)) n_genes)); [discriminate H|].
+    assert (Hpm : forall b, nth_error p_mask g = Some b -> (g < n_genes)%nat).
+    { intros b Hb. assert (g < length p_mask)%nat by (apply nth_error_Some; congruence).
+      unfold p_mask in H0. rewrite map_length, seq_length in H0. exact H0. }
+    assert (Hoff : forall d, d = 3 * (good + SD) -> (d * EPS6_DEN <? EPS6_NUM * SD) = false /\ (2 * (good + SD) <=? d) = true).
+    { intros d ->. pose proof EPS6_lt. pose proof EPS6_NUM_pos. split; [apply Z.ltb_ge; nia | apply Z.leb_le; lia]. }
+    assert (Hcore : forall d, nth_error p_mask g = Some true -> nth_error (vm_dist good) g = Some d ->
+              ((d * EPS6_DEN <? EPS6_NUM * SD) = true \/ (2 * (good + SD) <=? d) = false) ->
+              (exists v, entry_of entries g = Some v) /\ in_list mask g).
+    { intros d Hp Hd Hok. pose proof (Hpm _ Hp) as Hlt.
+      destruct (vm_dist_nth good g Hlt) as (ok & Eo & En). rewrite En in Hd. inversion Hd as [Ed]. clear Hd.
+      unfold p_mask in Hp. rewrite (nth_error_map_seq _ n_genes g Hlt) in Hp.
+      destruct (entry_of entries g) as [v|] eqn:Ee; [|discriminate Hp].
+      split; [exists v; reflexivity|]. apply vm_prior_in. rewrite Eo. f_equal.
+      destruct ok; [reflexivity|]. exfalso. destruct (Hoff d (eq_sym Ed)) as [O1 O2].
+      destruct Hok as [Hok|Hok]; congruence. }
+    match type of H with (if ?c then _ else _) = _ => destruct c end.
+    - destruct (kth (n_valid - 1) (vm_dist good)) as [cutoff|]; [|discriminate H].
+      inversion H; subst m. apply andb_list_true in Hg. destruct Hg as [Hp Hx].
+      rewrite nth_error_map, !nth_error_combine, !nth_error_map in Hx.
+      destruct (nth_error (vm_dist good) g) as [d|] eqn:Ed; [|discriminate Hx]. cbn [option_map] in Hx.
+      apply (Hcore d Hp eq_refl).
+      destruct (d * EPS6_DEN <? EPS6_NUM * SD); [left; reflexivity|].
+      destruct (2 * (good + SD) <=? d); [discriminate Hx | right; reflexivity].
+    - inversion H; subst m. apply andb_list_true in Hg. destruct Hg as [Hp Hx].
+      rewrite nth_error_map in Hx.
+      destruct (nth_error (vm_dist good) g) as [d|] eqn:Ed; [|discriminate Hx]. cbn [option_map] in Hx.
+      apply (Hcore d Hp eq_refl). left. inversion Hx. reflexivity.
+  Qed.
+
+  (* completeness: a gene of the list whose entry says "strictly valid" (value <= 0) is kept *)
+  Lemma validity_mask_complete m g v :
+    get_validity_mask SD n_valid n_genes entries mask = POk m ->
+    (g < n_genes)%nat -> entry_of entries g = Some v -> v <= 0 -> in_list mask g ->
+    nth_error m g = Some true.
+  Proof.
+    rewrite vm_unfold. intros H Hlt He Hv Hin.
+    destruct dist0 as [|d0 rest] eqn:Ed0; [discriminate H|]. cbv zeta in H.
+    set (good := zmax_list d0 (d0 :: rest)) in *.
+    destruct (negb (Nat.eqb (length (vm_dist good)) n_genes)); [discriminate H|].
+    assert (Hp : nth_error p_mask g = Some true).
+    { unfold p_mask. rewrite (nth_error_map_seq _ n_genes g Hlt), He. reflexivity. }
+    assert (Hd : nth_error (vm_dist good) g = Some 0).
+    { destruct (vm_dist_nth good g Hlt) as (ok & Eo & En). rewrite (vm_in_prior g Hlt Hin) in Eo.
+      inversion Eo; subst ok. rewrite En, He. f_equal. lia. }
+    assert (Hav : (0 * EPS6_DEN <? EPS6_NUM * SD) = true).
+    { apply Z.ltb_lt. pose proof EPS6_NUM_pos. nia. }
+    match type of H with (if ?c then _ else _) = _ => destruct c end.
+    - destruct (kth (n_valid - 1) (vm_dist good)) as [cutoff|]; [|discriminate H].
+      inversion H; subst m. apply andb_list_true. split; [exact Hp|].
+      rewrite nth_error_map, !nth_error_combine, !nth_error_map, Hd. cbn [option_map]. rewrite Hav. reflexivity.
+    - inversion H; subst m. apply andb_list_true. split; [exact Hp|].
+      rewrite nth_error_map, Hd. cbn [option_map]. rewrite Hav. reflexivity.
+  Qed.
+  Local Transparent Z.mul.
+End ValidityMask.
